@@ -84,3 +84,157 @@ class nonterminal_pairs:
             result, vals(hrg1._edge_labels) | vals(hrg2._edge_labels)),
         "pure": lambda hrg1, hrg2: same_tables(hrg1) and same_tables(hrg2),
     }
+
+
+# ---- rule level (C17): which rules are paired, and what the conjoined rule carries ---------------------------
+def nt_edge_sigs(g):
+    # the signatures (edge id, attachment-node ids in order) of the nonterminal edges of g
+    return {(e.id, [n.id for n in e.nodes]) for e in vals(g._edges) if e.label.is_nonterminal}
+
+def same_node_sets(g1, g2):
+    return vals(g1._nodes) == vals(g2._nodes)
+
+def same_nt_edges(g1, g2):
+    return nt_edge_sigs(g1) == nt_edge_sigs(g2)
+
+def same_ext_ids(g1, g2):
+    return [n.id for n in g1._ext] == [n.id for n in g2._ext]
+
+
+@contract("fggs.conjunction.conjoinable")
+class conjoinable:
+    sig = {"rule1": "HRGRule", "rule2": "HRGRule"}
+    properties = ["C17"]
+    returns = "bool"
+    requires = lambda rule1, rule2: wf_graph(rule1.rhs) and wf_graph(rule2.rhs)
+    ensures = {
+        # True exactly for: same nodes, same nonterminal edges by id and attachment, same external nodes (by id, in order)
+        "iff": lambda rule1, rule2, result: result == (same_node_sets(rule1.rhs, rule2.rhs)
+                                                       and same_nt_edges(rule1.rhs, rule2.rhs)
+                                                       and same_ext_ids(rule1.rhs, rule2.rhs)),
+        "pure": lambda rule1, rule2: same_graph_state(rule1.rhs) and same_graph_state(rule2.rhs),
+    }
+
+
+def conjoinable_spec(rule1, rule2):
+    return (same_node_sets(rule1.rhs, rule2.rhs) and same_nt_edges(rule1.rhs, rule2.rhs)
+            and same_ext_ids(rule1.rhs, rule2.rhs))
+
+def nt_map_covers(rule1, rule2, nt_map):
+    # the paired label exists for the two left-hand sides and for every pair of nonterminal edges that share an id
+    return ((rule1.lhs, rule2.lhs) in nt_map
+            and forall(lambda k: implies(k in rule1.rhs._edges and rule1.rhs._edges[k].label.is_nonterminal
+                                         and k in rule2.rhs._edges,
+                                         (rule1.rhs._edges[k].label, rule2.rhs._edges[k].label) in nt_map), "Id"))
+
+def nt_map_ok(rule1, rule2, nt_map):
+    # what nonterminal_pairs guarantees: typed like the first component, names injective and not used by terminals
+    return (forall(lambda p: implies(p in nt_map, len(p) == 2 and nt_map[p].is_nonterminal
+                                     and nt_map[p].node_labels == p[0].node_labels), "seq[EdgeLabel]")
+            and forall(lambda p, q: implies(p in nt_map and q in nt_map and p != q, nt_map[p].name != nt_map[q].name),
+                       "seq[EdgeLabel],seq[EdgeLabel]")
+            and forall(lambda p, k: implies(p in nt_map and k in rule1.rhs._edges and rule1.rhs._edges[k].label.is_terminal,
+                                            nt_map[p].name != rule1.rhs._edges[k].label.name), "seq[EdgeLabel],Id")
+            and forall(lambda p, k: implies(p in nt_map and k in rule2.rhs._edges and rule2.rhs._edges[k].label.is_terminal,
+                                            nt_map[p].name != rule2.rhs._edges[k].label.name), "seq[EdgeLabel],Id"))
+
+def terminals_compatible(rule1, rule2):
+    # conjoin_hrgs has rejected grammars in which one name denotes two different terminal labels
+    return forall(lambda a, b: implies(a in rule1.rhs._edges and b in rule2.rhs._edges
+                                       and rule1.rhs._edges[a].label.is_terminal and rule2.rhs._edges[b].label.is_terminal
+                                       and rule1.rhs._edges[a].label.name == rule2.rhs._edges[b].label.name,
+                                       rule1.rhs._edges[a].label == rule2.rhs._edges[b].label), "Id,Id")
+
+def rule_typed(rule):
+    return rule.lhs.is_nonterminal and rule.lhs.node_labels == [n.label for n in rule.rhs._ext]
+
+def nt_image(rule2, nt_map, e1, e):
+    # e is the conjoined edge for the nonterminal edge e1 of rule1 (its partner in rule2 has the same id)
+    return (e.nodes == e1.nodes and e.label == nt_map[(e1.label, rule2.rhs._edges[e1.id].label)]
+            and e.id == e1.id and e.persist_id)
+
+def int_ids_alive(g):
+    return forall(lambda k: implies(k in g._edges and is_int_id(k), alive(int_of(k))), "Id")
+
+def labels_agree(rule1, rule2, nt_map, g):
+    # universal form of "the edge-label table of g holds only paired labels and terminal labels of the two rules":
+    # whatever name is present denotes the paired / terminal label of that name
+    return (forall(lambda s, p: implies(s in g._edge_labels and p in nt_map and nt_map[p].name == s,
+                                        g._edge_labels[s] == nt_map[p]), "str,seq[EdgeLabel]")
+            and forall(lambda s, k: implies(s in g._edge_labels and k in rule1.rhs._edges
+                                            and rule1.rhs._edges[k].label.is_terminal and rule1.rhs._edges[k].label.name == s,
+                                            g._edge_labels[s] == rule1.rhs._edges[k].label), "str,Id")
+            and forall(lambda s, k: implies(s in g._edge_labels and k in rule2.rhs._edges
+                                            and rule2.rhs._edges[k].label.is_terminal and rule2.rhs._edges[k].label.name == s,
+                                            g._edge_labels[s] == rule2.rhs._edges[k].label), "str,Id"))
+
+def explicit_nts(rule1, rule2, nt_map, g, done):
+    # nonterminal edges with explicit ids, both directions, for the edges of rule1 in `done`
+    return (forall(lambda k: implies(k in g._edges and is_str_id(k) and g._edges[k].label.is_nonterminal,
+                                     k in rule1.rhs._edges and rule1.rhs._edges[k] in done
+                                     and rule1.rhs._edges[k].label.is_nonterminal
+                                     and nt_image(rule2, nt_map, rule1.rhs._edges[k], g._edges[k])), "Id")
+            and forall(lambda k: implies(k in rule1.rhs._edges and is_str_id(k) and rule1.rhs._edges[k] in done
+                                         and rule1.rhs._edges[k].label.is_nonterminal,
+                                         k in g._edges and nt_image(rule2, nt_map, rule1.rhs._edges[k], g._edges[k])), "Id"))
+
+def frame_ok(rule1, rule2, nt_map, g):
+    return (same_graph_state(rule1.rhs) and same_graph_state(rule2.rhs) and nt_map == old(nt_map)
+            and wf_graph(g) and g._nodes == rule1.rhs._nodes and g._ext == rule1.rhs._ext and int_ids_alive(g)
+            and labels_agree(rule1, rule2, nt_map, g))
+
+
+@contract("fggs.conjunction.conjoin_rules")
+class conjoin_rules:
+    sig = {"rule1": "HRGRule", "rule2": "HRGRule", "nt_map": "dict[seq[EdgeLabel],EdgeLabel]"}
+    properties = ["C17"]
+    locals = {"nts2": "dict[Id,Edge]"}
+    shards = 12
+    note = ("proved: no exception under the stated preconditions (conjoinable rules, paired labels as nonterminal_pairs "
+            "yields them, no terminal-label conflict), the conjoined rule carries the nodes and externals of the pair and the "
+            "paired left-hand side, its right-hand side is well formed, every nonterminal edge with an explicit id is the "
+            "paired edge (label, attachment, id) and vice versa, the arguments are untouched.  Edges with implicit ids and "
+            "the terminal edges (forall-exists statements) are left to the bounded stand-in.")
+    requires = lambda rule1, rule2, nt_map: (
+        wf_graph(rule1.rhs) and wf_graph(rule2.rhs) and nodes_alive(rule1.rhs) and nodes_alive(rule2.rhs)
+        and rule_typed(rule1) and rule_typed(rule2) and conjoinable_spec(rule1, rule2)
+        and nt_map_covers(rule1, rule2, nt_map) and nt_map_ok(rule1, rule2, nt_map) and terminals_compatible(rule1, rule2))
+    lemmas = {
+        # every nonterminal edge of rule1 has its partner in rule2 under the same id (from the equal signature sets)
+        "partners": lambda rule1, rule2: forall(
+            lambda k: implies(k in rule1.rhs._edges and rule1.rhs._edges[k].label.is_nonterminal,
+                              k in rule2.rhs._edges and rule2.rhs._edges[k].label.is_nonterminal), "Id"),
+        "same_nodes": lambda rule1, rule2: rule1.rhs._nodes == rule2.rhs._nodes,
+    }
+    loops = {
+        0: lambda rule1, rule2, nt_map, new_rhs, _i0, _it0: (
+            same_graph_state(rule1.rhs) and same_graph_state(rule2.rhs) and nt_map == old(nt_map)
+            and wf_graph(new_rhs) and len(new_rhs._ext) == 0
+            and forall(lambda k: k not in new_rhs._edges, "Id") and forall(lambda s: s not in new_rhs._edge_labels, "str")
+            and forall(lambda k: (k in new_rhs._nodes) == exists(lambda j: 0 <= j and j < _i0 and _it0[j].id == k, "int"), "Id")
+            and forall(lambda j: implies(0 <= j and j < _i0, new_rhs._nodes[_it0[j].id] == _it0[j]), "int")),
+        1: lambda rule1, rule2, nt_map, new_rhs, nts2, _i1, _it1, _n1: (
+            frame_ok(rule1, rule2, nt_map, new_rhs)
+            and forall(lambda k: implies(k in new_rhs._edges, new_rhs._edges[k].label.is_nonterminal), "Id")
+            # the ids of the edges still to come are free
+            and forall(lambda j: implies(_i1 <= j and j < _n1, _it1[j].id not in new_rhs._edges), "int")
+            and explicit_nts(rule1, rule2, nt_map, new_rhs, prefix_set(_it1, _i1))),
+        2: lambda rule1, rule2, nt_map, new_rhs, _i2, _it2: (
+            frame_ok(rule1, rule2, nt_map, new_rhs)
+            and explicit_nts(rule1, rule2, nt_map, new_rhs, vals(rule1.rhs._edges))),
+    }
+    # the lookup table of rule2's nonterminal edges by id
+    checks = {"nts2 = {edge.id: edge for edge in rule2.rhs.edges() if edge.label.is_nonterminal}": lambda rule2, nts2: (
+        forall(lambda k: (k in nts2) == (k in rule2.rhs._edges and rule2.rhs._edges[k].label.is_nonterminal), "Id")
+        and forall(lambda k: implies(k in nts2, nts2[k] == rule2.rhs._edges[k]), "Id"))}
+    ensures = {
+        "lhs": lambda rule1, rule2, nt_map, result: result.lhs == nt_map[(rule1.lhs, rule2.lhs)],
+        "nodes_and_externals": lambda rule1, rule2, nt_map, result: (
+            result.rhs._nodes == rule1.rhs._nodes and result.rhs._ext == rule1.rhs._ext),
+        "wf": lambda result: wf_graph(result.rhs),
+        # one nonterminal edge per shared (explicit-id) edge, labelled by the pair of labels, same attachment, same id
+        "explicit_nonterminal_edges": lambda rule1, rule2, nt_map, result: explicit_nts(
+            rule1, rule2, nt_map, result.rhs, vals(rule1.rhs._edges)),
+        "pure": lambda rule1, rule2, nt_map: (same_graph_state(rule1.rhs) and same_graph_state(rule2.rhs)
+                                              and nt_map == old(nt_map)),
+    }
